@@ -21,7 +21,9 @@ VARIABLES model, pol, cs, bzero, tsp, broad, window,
           emitter    \* "d" (deuterium D-alpha) or "c" (C5+ 8-7): the thermal width goes with 1 / sqrt(atomic weight)
 vars == <<model, pol, cs, bzero, tsp, broad, window, regime, view, emitter>>
 \* velocity component along the observation direction in units of 1e4 m/s
-DopplerUnits == CASE view = 1 -> 2 [] view = 2 -> -2 [] view = 3 -> 1
+\* views 4 and 5 give the direction as a vector that is not of unit length (2 x^ and 3 y^): only its direction counts
+DopplerUnits == CASE view \in {1, 4} -> 2 [] view = 2 -> -2 [] view \in {3, 5} -> 1
+DirLength == CASE view = 4 -> 2 [] view = 5 -> 3 [] OTHER -> 1
 
 Cos2(i) == CASE i = 1 -> <<0, 1>> [] i = 2 -> <<1, 1>> [] i = 3 -> <<1, 2>> [] i = 4 -> <<9, 25>>
 C2 == Cos2(cs)
@@ -79,7 +81,7 @@ Init == /\ model \in ModelsC
         /\ window \in {"inside", "straddle_low", "straddle_high", "outside", "coarse", "one_bin_partial", "tail_in_first_bin", "tail_in_last_bin"}
         /\ (model \notin {"stark", "mse"} => broad)
         /\ regime \in (IF model = "stark" /\ broad THEN {"doppler", "mixed"} ELSE {"doppler"})
-        /\ view \in (IF model = "mse" THEN {1} ELSE 1..3)
+        /\ view \in (IF model = "mse" THEN {1} ELSE 1..5)
         /\ emitter \in (IF model \in {"gaussian", "multiplet", "zeeman_triplet"} THEN {"d", "c"} ELSE {"d"})
         /\ (view # 1 \/ emitter # "d" => window \in {"inside", "straddle_low", "one_bin_partial"})
 Next == UNCHANGED vars
@@ -95,6 +97,6 @@ PolarisedShare == (Polarised /\ Components # <<>> /\ pol # "no") =>
 PiPlusSigma == RAdd(PiShare, RMul(R(2), SigmaShare)) = <<1, 1>>
 NoWidthAddsNothing == NoWidth => Components = <<>>
 
-EmitCase == PrintT(ToJson([model |-> model, pol |-> pol, cos2 |-> C2, cs |-> cs, bzero |-> bzero, tsp |-> tsp, broad |-> broad, window |-> window, regime |-> regime, view |-> view, emitter |-> emitter, doppler_units |-> DopplerUnits,
+EmitCase == PrintT(ToJson([model |-> model, pol |-> pol, cos2 |-> C2, cs |-> cs, bzero |-> bzero, tsp |-> tsp, broad |-> broad, window |-> window, regime |-> regime, view |-> view, emitter |-> emitter, doppler_units |-> DopplerUnits, dir_length |-> DirLength,
                            comps |-> Components, total |-> SumW(Components)]))
 =============================================================================
